@@ -661,3 +661,5 @@ def run(ctx):
     from . import c12
     ctx.do(c12.r12_5)
     ctx.do(c10.r10_4_units, modules=("mbox", "client"))
+    from . import c05 as _c05
+    ctx.do(_c05.r5_3)  # an expunged message's key leaves every flag set (or the next message with that key inherits them)
